@@ -4,6 +4,7 @@ gen_<id>(rng, tier) -> scenario document;  eval_<id>(doc) -> result dict:
   {"violations": [...], "sig": str, "nontrivial": bool, "stats": {counter: n}}
 """
 import math
+import random
 
 from . import gen
 from . import oracles_a as oa
@@ -21,7 +22,7 @@ TWIN_FAULTS = ("dup", "clock")          # faults that twin sessions may share (c
 
 # ----------------------------------------------------------------------------- helpers
 def base_doc(rng, profile, latlon_p=0.0, sqlite_p=0.15, pickle_p=0.06, fault_kinds=ALL_FAULTS,
-             cfg_kw=None, world_kw=None, trace_kw=None, big_p=0.08, antimeridian_p=0.06):
+             cfg_kw=None, world_kw=None, trace_kw=None, big_p=0.08, antimeridian_p=0.06, huge_p=0.03):
     cfg_kw, world_kw, trace_kw = dict(cfg_kw or {}), dict(world_kw or {}), dict(trace_kw or {})
     latlon = rng.random() < latlon_p
     r = rng.random()
@@ -41,6 +42,17 @@ def base_doc(rng, profile, latlon_p=0.0, sqlite_p=0.15, pickle_p=0.06, fault_kin
         # the thorough tier also visits larger worlds and longer traces
         world_kw["n"] = rng.randint(8, 12)
         trace_kw.setdefault("nobs", rng.randint(4, 10))
+    huge = False
+    hs = random.Random(gen.derive("huge", repr(rng.getstate())))    # a side stream: the main one is not consumed
+    if huge_p and "unit" not in world_kw and hs.random() < huge_p:
+        # SIZE as a swarm dimension (both tiers): a town-sized map and a long trace, so that limits, windows and bounds
+        # which small inputs never reach (depth of non-emitting runs, width of a column, length of a back-tracking chain)
+        # are met as well
+        huge = True
+        world_kw["n"] = hs.randint(13, 26)
+        trace_kw["nobs"] = hs.randint(10, 24)
+        if hs.random() < 0.4 and "spacing" not in trace_kw:
+            trace_kw["spacing"] = hs.choice([0.6, 1.0, 2.5, 6.0, 9.0, 12.0]) * (20.0 if latlon else 1.0)
     unit = 20.0 if latlon else world_kw.pop("unit", 1.0)
     offset = (0.0, 0.0)
     if not latlon and rng.random() < big_p:
@@ -51,6 +63,11 @@ def base_doc(rng, profile, latlon_p=0.0, sqlite_p=0.15, pickle_p=0.06, fault_kin
     if world["shape"] == "grid" and "half_grid" not in trace_kw and rng.random() < 0.5:
         trace_kw["half_grid"] = True
     cfg = gen.gen_config(rng, world, **cfg_kw)
+    if huge:
+        if cfg.get("max_lattice_width") is not None and hs.random() < 0.6:
+            cfg["max_lattice_width"] = hs.choice([4, 8, 12, 20])
+        if cfg.get("non_emitting_states") and hs.random() < 0.5:
+            cfg.pop("ne_maxnb", None)
     if cfg.get("non_emitting_states") and "sparse" not in trace_kw and rng.random() < 0.4:
         trace_kw["sparse"] = True
     trace = gen.gen_trace(rng, world, **trace_kw)
@@ -83,6 +100,8 @@ def base_doc(rng, profile, latlon_p=0.0, sqlite_p=0.15, pickle_p=0.06, fault_kin
             faults["refused_before"] = {str(rng.randrange(1, len(ops))): rng.choice(["prefix", "differs"])}
     d = {"kind": "A", "world": world, "trace": trace, "cfg": cfg, "ops": ops, "faults": faults,
          "backend": backend, "log": "ERROR"}
+    if huge:
+        d["huge"] = True
     if trace2 is not None and any(op.get("alt") for op in ops):
         d["trace2"] = trace2
     if backend == "inmem_api" and rng.random() < 0.6:
@@ -172,6 +191,16 @@ def result(vs, doc, sess, ctx=None, extra_sig="", stats=None):
     if stats:
         for k, v in stats.items():
             st[k] = st.get(k, 0) + v
+    if doc.get("huge"):
+        st["probe_town_sized_world"] = 1
+    m = getattr(sess, "matcher", None)
+    if m is not None and getattr(m, "lattice", None):
+        try:
+            st["max_non_emitting_depth"] = max(len(c.o) - 1 for c in m.lattice.values())
+            st["max_column_layer_size"] = max(len(l) for c in m.lattice.values() for l in c.o)
+            st["max_columns"] = len(m.lattice)
+        except Exception:
+            pass
     return {"violations": vs, "sig": session_sig(doc, sess, extra_sig), "nontrivial": nontrivial(sess), "stats": st,
             "shape": lattice_shape(sess)}
 
